@@ -158,6 +158,7 @@ func k2ModelSingle(m *k2Model, op string) error {
 		m.AskedAny = true
 	case "mine": // ready -> mining, mining -> mining; registered/plotting: handed to the plotter
 		m.AskedAny, m.AskedMine = true, true
+		m.StopVia = ""
 		if m.State == engine.Ready {
 			m.State = engine.Mining
 		}
@@ -681,8 +682,13 @@ func (c *k2Ctx) try(hist []int, op int) (key string, ops []int, expand bool) {
 func (c *k2Ctx) try1(hist []int, op int) (string, []int, bool, bool) {
 	k := k2New(c.sc.Initial, c.sc.Cfg, c.sc.ChanCap)
 	defer func() {
-		if !k.close() {
+		if ok, note := k.close(); !ok {
 			c.poisoned = true
+			if c.checkC13 {
+				c.viol("deadlock/cannot-be-stopped", k.closeRoots, note+" (state reached by the history below, then all gates opened)", hist, op)
+			} else {
+				c.r.Cap("an instance could not be torn down (" + note + "); that is C13's subject")
+			}
 		}
 	}()
 	var blocked []qsched.GoroutineInfo
@@ -1133,7 +1139,7 @@ func TestVerifC09Chia(t *testing.T) {
 		add("a", "YYY", "none", 20, 2, k2Alphabet(3, k2BulkA, true, true, nil))
 	}
 	// family (b): registered spaces (not reachable from NewWorkSpace)
-	add("b", "RY", "none", vk.Pick(r, 7, 24), 2, k2Alphabet(2, k2BulkB, false, true, nil))
+	add("b", "RY", "none", vk.Pick(r, 8, 24), 2, k2Alphabet(2, k2BulkB, false, true, nil))
 	add("b", "RR", "none", vk.Pick(r, 6, 10), 2, k2Alphabet(2, k2BulkB, false, false, nil))
 	if r.Thorough() {
 		add("b", "RRY", "none", 6, 2, k2Alphabet(3, nil, false, false, nil))
@@ -1175,11 +1181,17 @@ func TestVerifC13Chia(t *testing.T) {
 				alpha = small(len(init))
 			}
 			depth := d + cap
+			if cap == 0 {
+				depth++
+			}
 			if init == "RRR" && cap > 0 {
 				depth--
 			}
 			if r.Thorough() && cap == 2 {
 				depth = 7
+				if init == "RRR" {
+					depth = 6
+				}
 			}
 			add("b", init, "none", cap, depth, alpha)
 		}
